@@ -3,9 +3,10 @@
    All theorems are about the S2 block-manager model (tree with the fixes for
    F01, F02, F14, F17, F26) and hold for EVERY parameter set [P], genesis
    filter header [gfh] and EVERY finite history [ops] of operations
-   (OHeaders, OInv, ONewPeer, ODonePeer, OWriteCF, ORollback and ORestart
-   — a new block manager built by newBlockManager over the same stores —, in
-   any order, with any arguments) from [init_state], i.e. in every reachable
+   (OHeaders, OInv, ONewPeer, ODonePeer, OWriteCF, ORollback, ORestart — a
+   new block manager built by newBlockManager over the same stores — and
+   OHeadersF — a headers message during whose handling a write to the block
+   header store fails —, in any order, with any arguments) from [init_state], i.e. in every reachable
    state [reach P gfh ops].  The only hypothesis is [in_domain ops]: fewer
    than 1,000,000 block headers delivered in total (the model converts
    heights to list positions exactly only below that bound).  No hypothesis
@@ -308,4 +309,27 @@ Example C19_restart_nonvacuous :
   nv_show s4 = ([1; 2; 3; 4; 105; 106; 107; 108], [900; 901; 902; 903], 3,
                 [EConn 2 1; EConn 3 2; EConn 4 3; EConn 5 4; EDisc 7 6 6; EDisc 6 5 5; EDisc 5 4 4], false) /\
   op_events s3 s4 = [EDisc 7 6 6; EDisc 6 5 5; EDisc 5 4 4].
+Proof. split; [vm_compute; reflexivity|]. vm_compute. repeat split; reflexivity. Qed.
+
+(* Non-vacuity with a failing header-store write: the branch of nv_ops2
+   arrives, the three blocks above the fork point are rolled back and
+   announced, then the write of the branch's first header fails (k = 1): the
+   chain stays at the fork point, the events are exactly the three
+   disconnects, replaying all events still yields the committed chain, and
+   the backlog answers are those of the shorter chain.  With k = 2 the first
+   header is stored and the write of the rest fails. *)
+Example C19_write_fault_nonvacuous :
+  let hs := [nv_hdr 105 4 1041; nv_hdr 106 105 1051; nv_hdr 107 106 1061; nv_hdr 108 107 1071] in
+  in_domain (nv_ops1 ++ [OHeadersF 1 2000 hs 1]) /\
+  let s1 := reach nv_P 900 nv_ops1 in
+  let s2 := step nv_P s1 (OHeadersF 1 2000 hs 1) in
+  let s3 := step nv_P s1 (OHeadersF 1 2000 hs 2) in
+  nv_show s2 = ([1; 2; 3; 4], [900; 901; 902; 903], 3,
+                [EConn 2 1; EConn 3 2; EConn 4 3; EConn 5 4; EDisc 7 6 6; EDisc 6 5 5; EDisc 5 4 4], false) /\
+  replay [1] (events s2) = Some [1; 2; 3; 4] /\
+  (notifs_since 2 s2, notifs_since 3 s2, notifs_since 4 s2) = (Some ([(4, 3)], 3), Some ([], 3), None) /\
+  (map nheight (hl s2), nextCp s2) = ([3], None) /\
+  nv_show s3 = ([1; 2; 3; 4; 105], [900; 901; 902; 903], 3,
+                [EConn 2 1; EConn 3 2; EConn 4 3; EConn 5 4; EDisc 7 6 6; EDisc 6 5 5; EDisc 5 4 4], false) /\
+  map nheight (hl s3) = [4].
 Proof. split; [vm_compute; reflexivity|]. vm_compute. repeat split; reflexivity. Qed.
